@@ -229,8 +229,9 @@ func scenario(c srv.Cfg) *engine.Scenario {
 // afterReload: the binding of keys to listeners is that of the configuration in force: boot X,
 // reload to Y (addresses change owner, formats change), then the whole matrix of Y.
 type reloadCase struct {
-	X srv.Cfg `json:"boot"`
-	Y srv.Cfg `json:"reload_to"`
+	X   srv.Cfg `json:"boot"`
+	Y   srv.Cfg `json:"reload_to"`
+	Bad bool    `json:"reload_must_fail,omitempty"` // Y cannot be loaded: X stays in force
 }
 
 func reloadCases() []reloadCase {
@@ -241,10 +242,15 @@ func reloadCases() []reloadCase {
 	}
 	leg := srv.Cfg{Legacy: []srv.Legacy{{Key: universe[1], Port: 9005}, {Key: universe[3], Port: 9006}}}
 	return []reloadCase{
-		{two(keys(0), keys(1, 3)), two(keys(1, 3), keys(0))}, // the two services swap their addresses
-		{two(keys(0, 1), keys(3)), two(keys(3), keys(4))},
-		{two(keys(0), keys(1)), leg},
-		{leg, two(keys(0), keys(1))},
+		{X: two(keys(0), keys(1, 3)), Y: two(keys(1, 3), keys(0))}, // the two services swap their addresses
+		{X: two(keys(0, 1), keys(3)), Y: two(keys(3), keys(4))},
+		{X: two(keys(0), keys(1)), Y: leg},
+		{X: leg, Y: two(keys(0), keys(1))},
+		// legacy to legacy: a port is dropped, the retained port gets other keys
+		{X: leg, Y: srv.Cfg{Legacy: []srv.Legacy{{Key: universe[0], Port: 9005}}}},
+		// a reload that cannot be loaded (unsupported cipher / unbindable address is C10's): X stays
+		{X: two(keys(0), keys(1, 3)), Y: srv.Cfg{Services: []srv.Svc{{Listeners: l0, Keys: []srv.Key{{ID: "bad", Cipher: "rc4-md5", Secret: "x"}}}}}, Bad: true},
+		{X: leg, Y: srv.Cfg{Legacy: []srv.Legacy{{Key: srv.Key{ID: "bad", Cipher: "rc4-md5", Secret: "x"}, Port: 9005}}}, Bad: true},
 	}
 }
 
@@ -267,11 +273,29 @@ func reloadScenario(rc reloadCase) *engine.Scenario {
 			add("valid-config-rejected", "a valid configuration failed to load: "+err.Error())
 			return
 		}
-		if w.Reload(rc.Y) {
+		failed := w.Reload(rc.Y)
+		inForce := rc.Y
+		switch {
+		case rc.Bad && !failed:
+			add("invalid-reload-accepted", "a configuration that cannot be loaded was reported as loaded")
+			return
+		case rc.Bad:
+			inForce = rc.X
+		case failed:
 			add("valid-reload-failed", "the reload to a valid configuration failed")
 			return
 		}
-		obs = Matrix(w, rc.Y, 1, add)
+		obs = Matrix(w, inForce, 1, add)
+		// nothing of the other configuration is still listening
+		want := map[string]bool{}
+		for _, l := range inForce.Listeners() {
+			want[fmt.Sprintf("%s/%d", l.Type, l.Port())] = true
+		}
+		for _, b := range w.Bound() {
+			if !want[b] {
+				add("listener-of-replaced-configuration-still-bound", fmt.Sprintf("%s is bound although the configuration in force has no such listener", b))
+			}
+		}
 		if err := w.Shutdown(); err != nil {
 			add("stop-error", err.Error())
 		}
